@@ -669,6 +669,23 @@ theorem c14_exec_table_agrees_with_source :
       r.2.2.2.2.2.2 = true := by
   decide +kernel
 
+/-- **What happens to an operation that is ended from inside one of its own callbacks is the code's behaviour, on the
+    complete domain (table regenerated from the source on every run).**  `Gen.execKillProbe` is the real
+    `execute_operation` EVALUATED with `kill_operation(own id)` or `shutdown()` fired from inside each of the six
+    callbacks — the four checkpoint conditions, `work_fn`, `validate_fn` —, work returning or raising, the validator
+    absent / True / False / raising (92 rows, all of `killProbeDomain`).  On every row the model's `exec` reports the same
+    success flag and phase, runs its callbacks in exactly the observed order, and agrees on whether the work function ran
+    and whether it held the resource; and on every row of the REAL code nothing is active or owned afterwards and the
+    work function never ran without the resource.  In particular the test this property's repaired finding added — an
+    operation ended in its G0 or G1 → S checkpoint does not work, one ended later goes on — is read off the source, not
+    only put into the model.  A proof by `decide` over the complete finite table. -/
+theorem c14_exec_kill_table_agrees_with_source :
+    Gen.execKillProbeOk = true ∧
+    Gen.execKillProbe.map (fun r => (r.1, r.2.1, r.2.2.1, r.2.2.2.1)) = killProbeDomain ∧
+    ∀ r ∈ Gen.execKillProbe, killProbeRow r.1 r.2.1 r.2.2.1 r.2.2.2.1 = r.2.2.2.2 ∧
+      r.2.2.2.2.2.2.2.2 = true ∧ r.2.2.2.2.2.2.2.1 ≠ some false := by
+  decide +kernel
+
 set_option synthInstance.maxSize 1024 in
 /-- **The watchdog's per-operation verdict is the code's, on a complete grid (table regenerated from the source on
     every run).**  `Gen.watchdogProbe` (harness/vf/extract/watchdog_probe.py) is the real `Watchdog.check` EVALUATED on
